@@ -24,7 +24,7 @@ for pid in ALL:
         engine="lean4-model+correspondence",
         level_claimed=dict(category="proof", text=mt.LEVEL[pid], design_ref=f"DESIGN.md §6 {pid}"),
         level_note=mt.NOTE.get(pid, mt.NOTE_DEFAULT),
-        technique=mt.TECHNIQUE.get(pid, "Lean 4 theorems about an executable model + byte-exact differential correspondence with the real code"),
+        technique=mt.TECHNIQUE.get(pid, mt._T_DEFAULT),
     ))
 
 manifest = dict(
